@@ -20,6 +20,10 @@ pub mod spatial;
 pub mod psm;
 pub mod static_sound;
 pub mod transport;
+pub mod chan;
+pub mod deliver;
+pub mod life;
+pub mod storage;
 pub mod units;
 pub mod wav;
 
@@ -52,6 +56,10 @@ pub fn gen(suite: &str, rng: &mut Rng, n: usize, thorough: bool, stats: &mut Sta
 		"mixpart" => mixer::gen(rng, n, thorough, stats, mixer::Mode::Partition),
 		"fxa" => fxa::gen(rng, n, thorough, stats),
 		"fxb" => fxb::gen(rng, n, thorough, stats),
+		"chan" => chan::gen(rng, n, thorough, stats),
+		"deliver" => deliver::gen(rng, n, thorough, stats),
+		"life" => life::gen(rng, n, thorough, stats),
+		"storage" => storage::gen(rng, n, thorough, stats),
 		_ => panic!("unknown suite {}", suite),
 	}
 }
@@ -79,6 +87,10 @@ pub fn run(suite: &str, ops: &[String]) -> Vec<String> {
 		"mixpart" => mixer::run(ops, mixer::Mode::Partition),
 		"fxa" => fxa::run(ops),
 		"fxb" => fxb::run(ops),
+		"chan" => chan::run(ops),
+		"deliver" => deliver::run(ops),
+		"life" => life::run(ops),
+		"storage" => storage::run(ops),
 		_ => panic!("unknown suite {}", suite),
 	}
 }
